@@ -30,7 +30,7 @@ From BR Require Import Base.Prelude Gen.Consts Gen.Panics Model.PanicSites Bridg
   Model.Casblob Proofs.Casblob_header Proofs.Casblob_nopanic
   Model.ActionResult Proofs.ActionResult_validate Proofs.ActionResult_store
   Model.ByteStream Proofs.ByteStream_write
-  Model.LRU Model.Disk Proofs.Disk_inv Proofs.Disk_conc2
+  Model.LRU Model.Disk Proofs.Disk_inv1 Proofs.Disk_inv2 Proofs.Disk_inv Proofs.Disk_conc2
   Model.Protocols Proofs.Protocols_base Proofs.Protocols_splice Proofs.Protocols_legacy.
 Open Scope string_scope.
 Open Scope list_scope.
